@@ -505,8 +505,56 @@ def main_meanparts(cases):
     return out
 
 
+def main_padconcat(cases):
+    """[n, h, w, c, axis (0 batch / 3 channels), front, behind]: one PAD that pads that axis only; what convert_pad_to_concat makes
+    of it: the concatenation axis, per part its extent along the axis, whether it is the source tensor, and whether the
+    constant parts hold the zero point; the output extent"""
+    import numpy as np
+    from ethosu.vela import model_reader
+    from ethosu.vela.architecture_features import Accelerator, create_default_arch
+    from ethosu.vela.operation import Op
+    from ethosu.vela.tflite_graph_optimiser import convert_pad_to_concat
+    arch = create_default_arch(Accelerator.Ethos_U55_128)
+    out = []
+    tmp = tempfile.mkdtemp(prefix="rw_", dir=os.environ.get("VERIF_TMP"))
+    for i, case in enumerate(cases):
+        n, h, w, c, axis, front, behind = case
+        pv = [[0, 0], [0, 0], [0, 0], [0, 0]]
+        pv[axis] = [front, behind]
+        net = netgen.Net("padconcat")
+        x = net.input([n, h, w, c], "int8", 0.05, 7)
+        pt = net.tensor([4, 2], "int32", None, None, pv, name="paddings")
+        y = net.tensor([d + a + b for d, (a, b) in zip([n, h, w, c], pv)], "int8", x.scale, x.zp)
+        net.op("PAD", [x, pt], [y], {})
+        net.output(y)
+        path = os.path.join(tmp, "q%d.tflite" % i)
+        open(path, "wb").write(net.build())
+        nng, _ = model_reader.read_model(path, model_reader.ModelReaderOptions())
+        os.remove(path)
+        op = [o for o in nng.subgraphs[0].get_all_ops() if o.type == Op.Pad][0]
+        op.run_on_npu = True
+        op.set_ifm_ofm_shapes()
+        src = op.inputs[0]
+        res = convert_pad_to_concat(op, arch, nng)
+        if res.type != Op.ConcatTFLite:
+            out.append({"converted": 0})
+            continue
+        ax = int(res.attrs["axis"]) % 4
+        parts = []
+        for t in res.inputs:
+            is_src = t is src
+            zp_ok = True if is_src else bool((np.asarray(t.values) == 7).all())
+            parts.append([int(t.shape[ax]), 1 if is_src else 0, 1 if zp_ok else 0])
+        out.append({"converted": 1, "axis": ax, "parts": parts, "out": int(res.outputs[0].shape[ax])})
+    os.rmdir(tmp)
+    return out
+
+
 def main():
     cases = json.load(open(sys.argv[1]))
+    if len(sys.argv) > 3 and sys.argv[3] == "padconcat":
+        json.dump(main_padconcat(cases), open(sys.argv[2], "w"))
+        return
     if len(sys.argv) > 3 and sys.argv[3] == "meanparts":
         json.dump(main_meanparts(cases), open(sys.argv[2], "w"))
         return
